@@ -23,16 +23,16 @@ func checkC12(p *core.Prog, r *core.Report) {
 
 // lifecycle stores of the two numbers outside the acceptor handlers
 var c12Lifecycle = map[string]string{
-	"server.NewArbiterVoter":                                "constructor",
-	"server.(*ArbiterStore).Load":                           "seed from saved metadata at start",
-	"server.(*ArbiterManager).Load":                         "seed from saved metadata at start",
-	"server.(*ArbiterManager).Config":                       "first configuration of a replica set",
-	"server.(*ArbiterManager).QuitMember":                   "member leaves the replica set",
-	"server.(*ArbiterVoter).DoProposal":                     "candidate's own accepted number, written after a majority accepted it (proposer side, not decided)",
-	"server.(*ArbiterVoter).DoCommit":                       "candidate's own committed number, written after a majority committed (proposer side, not decided)",
+	"server.NewArbiterVoter":                                    "constructor",
+	"server.(*ArbiterStore).Load":                               "seed from saved metadata at start",
+	"server.(*ArbiterManager).Load":                             "seed from saved metadata at start",
+	"server.(*ArbiterManager).Config":                           "first configuration of a replica set",
+	"server.(*ArbiterManager).QuitMember":                       "member leaves the replica set",
+	"server.(*ArbiterVoter).DoProposal":                         "candidate's own accepted number, written after a majority accepted it (proposer side, not decided)",
+	"server.(*ArbiterVoter).DoCommit":                           "candidate's own committed number, written after a majority committed (proposer side, not decided)",
 	"server.(*ArbiterManager).commandHandleAnnouncementCommand": "adopting the winner's announcement (clears the outstanding commit)",
-	"server.(*ArbiterManager).voteSucced":                   "winner bookkeeping after the election",
-	"server.(*ArbiterVoter).clearVote":                      "vote state reset",
+	"server.(*ArbiterManager).voteSucced":                       "winner bookkeeping after the election",
+	"server.(*ArbiterVoter).clearVote":                          "vote state reset",
 }
 
 func c12R1(p *core.Prog, r *core.Report) {
@@ -146,7 +146,9 @@ func c12R3(p *core.Prog, r *core.Report) {
 			continue
 		}
 		ex := core.NewExplorer(p, core.Hooks{
-			Track: func(x *core.X, a core.Atom) bool { return strings.Contains(a.String(), "len(") && strings.Contains(a.String(), ".members)") },
+			Track: func(x *core.X, a core.Atom) bool {
+				return strings.Contains(a.String(), "len(") && strings.Contains(a.String(), ".members)")
+			},
 			Exit: func(x *core.X, rets []core.Expr) {
 				if len(rets) != 1 || rets[0].S != "nil" {
 					return
